@@ -195,6 +195,26 @@ def oracle(c, out, D):
         if any(ds[i] > ds[i + 1] for i in range(len(ds) - 1)):
             return ("hexagons-order", "concentric_hexagons(%d) is not nearest ring first" % R)
         return None
+    if fn == "hexprefix":
+        # a generator that was not run to its end: what it yielded must be the beginning of a valid
+        # enumeration -- no duplicates, within the radius, ring by ring with every earlier ring complete
+        R, start = c["radius"], tuple(c["start"])
+        pts = [tuple(p) for p in r]
+        if len(set(pts)) != len(pts):
+            return ("hexagons-duplicate", "concentric_hexagons(%d) yields a chip twice" % R)
+        box = (start[0] - R - 2, start[1] - R - 2, start[0] + R + 3, start[1] + R + 3)
+        dist = bfs(mesh_neigh(*box), start, limit=R + 1)
+        if any(p not in dist or dist[p] > R for p in pts):
+            return ("hexagons-ball", "concentric_hexagons(%d, %r) yields a chip outside the radius" % (R, start))
+        ds = [dist[p] for p in pts]
+        if any(ds[i] > ds[i + 1] for i in range(len(ds) - 1)):
+            return ("hexagons-order", "concentric_hexagons(%d) is not nearest ring first" % R)
+        if pts:
+            inner = set(p for p, d in dist.items() if d < ds[-1])
+            if not inner <= set(pts):
+                return ("hexagons-ball", "concentric_hexagons(%d, %r) moved on to ring %d with %d nearer chips missing"
+                        % (R, start, ds[-1], len(inner - set(pts))))
+        return None
     if fn == "to_xyz":
         if to2d(r) != tuple(c["xy"]):
             return ("to-xyz", "to_xyz(%r) = %r" % (c["xy"], r))
@@ -238,10 +258,141 @@ def torus_cases(rng, w, h, a, b, idx, styles):
     return out
 
 
+# ------------------------------------------------------------------ histories (state between calls)
+FORMS = ["tuple", "list", "gen", "map", "iter"]
+
+
+def ring_prefix(r):
+    """number of chips yielded before ring r starts"""
+    return 1 + 3 * r * (r - 1)
+
+
+def gen_histories(chk):
+    """Sequences of calls made in ONE interpreter: concentric_hexagons generators that are abandoned or
+    suspended part-way through a ring nobody has walked before (each history h first touches ring h+1),
+    interleaved generators, vectors / coordinates handed over as tuple, list, generator, map or iterator,
+    and callers that modify the lists they were given before the next call.  Every call is judged on its
+    own by the oracle and compared with the (stateless) model."""
+    rng = chk.rng
+    quick = chk.tier == "quick"
+    out = []
+    H = 10 if quick else 24
+    for h in range(H):
+        r = h + 1
+        cut = ring_prefix(r) + rng.randint(1, 6 * r - 1)          # strictly inside ring r
+        sa = [rng.randint(-6, 6), rng.randint(-6, 6)]
+        sb = [rng.randint(-6, 6), rng.randint(-6, 6)]
+        ops = [dict(op="hex_open", id=0, radius=r, start=sa)]
+        kind = h % 3
+        if kind == 0:
+            ops += [dict(op="hex_next", id=0, n=cut), dict(op="hex_drop", id=0, close=bool(h % 2)),
+                    dict(op="hex_full", radius=r, start=sb)]
+        elif kind == 1:
+            ops += [dict(op="hex_next", id=0, n=cut), dict(op="hex_open", id=1, radius=r, start=sb),
+                    dict(op="hex_next", id=1, n=10 ** 6), dict(op="hex_next", id=0, n=10 ** 6)]
+        else:
+            ops.append(dict(op="hex_open", id=1, radius=r, start=sb))
+            left = {0: cut, 1: ring_prefix(r) + 6 * r + 5}
+            while any(left.values()):
+                i = rng.choice([k for k in left if left[k]])
+                n = min(left[i], rng.randint(1, 7))
+                ops.append(dict(op="hex_next", id=i, n=n))
+                left[i] -= n
+            ops.append(dict(op="hex_drop", id=0, close=False))
+        ops.append(dict(op="hex_full", radius=rng.randint(0, r), start=[rng.randint(-3, 3), rng.randint(-3, 3)]))
+        ops.append(dict(op="hex_full", radius=r, start=[0, 0]))
+        out.append(dict(fn="history", ops=ops, kind="hexagons"))
+    for h in range(30 if quick else 300):
+        ops = []
+        for _ in range(rng.randint(8, 24)):
+            k = rng.random()
+            if k < 0.7:
+                m = rng.choice([1, 2, 4])
+                v = [0, 0, 0] if rng.random() < 0.3 else [rng.choice([0, rng.randint(-m, m), m, -m]) for _ in range(3)]
+                ops.append(dict(op="ldf", v=v, start=[rng.randint(-2, 7), rng.randint(-2, 7)],
+                                width=rng.choice([None, 3, 8]), height=rng.choice([None, 2, 6]),
+                                ks=[rng.randrange(TWO53) for _ in range(3)],
+                                form=rng.choice(FORMS), sform=rng.choice(FORMS),
+                                then=rng.choice([None, None, "append", "extend", "clear", "reverse", "pop"])))
+            elif k < 0.8:
+                ops.append(dict(op="mesh_path", s=[rng.randint(-5, 5) for _ in range(3)],
+                                d=[rng.randint(-5, 5) for _ in range(3)],
+                                form=rng.choice(FORMS), dform=rng.choice(FORMS)))
+            elif k < 0.9:
+                ops.append(dict(op="minimise", v=[rng.randint(-5, 5) for _ in range(3)], form=rng.choice(FORMS)))
+            else:
+                w, hh = rng.randint(1, 9), rng.randint(1, 9)
+                ops.append(dict(op="torus_path", s=[rng.randint(0, 8) for _ in range(3)],
+                                d=[rng.randint(0, 8) for _ in range(3)], w=w, h=hh,
+                                ks=[rng.randrange(TWO53) for _ in range(4)], t=rng.randrange(100),
+                                form=rng.choice(FORMS), dform=rng.choice(FORMS)))
+        out.append(dict(fn="history", ops=ops, kind="walks"))
+    return out
+
+
+def expand_history(c, o, hid):
+    """-> [(derived case, implementation output)]: one ordinary case per call of the history (per generator
+    for the hexagon generators), each carrying the prefix of the history that reproduces it"""
+    ops = c["ops"]
+    if o[0] != "ok":
+        return [(dict(fn="hex", radius=0, start=[0, 0], replay_history=ops, hist=hid), o)]
+    res = o[1]
+    out = []
+    gens = {}
+
+    def flush(i, upto):
+        g = gens.pop(i)
+        base = dict(radius=g["radius"], start=g["start"], hist=hid, replay_history=ops[:upto + 1])
+        if g["error"]:
+            out.append((dict(base, fn="hex"), g["error"]))
+        elif g["exhausted"]:
+            out.append((dict(base, fn="hex"), ["ok", g["got"]]))
+        else:
+            out.append((dict(base, fn="hexprefix", n=len(g["got"])), ["ok", g["got"]]))
+    for k, (op, r) in enumerate(zip(ops, res)):
+        kind = op["op"]
+        if kind == "hex_open":
+            gens[op["id"]] = dict(radius=op["radius"], start=op["start"], got=[], exhausted=False, error=None, last=k)
+        elif kind == "hex_next":
+            g = gens[op["id"]]
+            g["last"] = k
+            if r[0] != "ok":
+                g["error"] = r
+            else:
+                g["got"] += r[1]
+                if len(r[1]) < op["n"]:
+                    g["exhausted"] = True
+        elif kind == "hex_drop":
+            flush(op["id"], k)
+        else:
+            d = {kk: vv for kk, vv in op.items() if kk != "op"}
+            d.update(fn={"hex_full": "hex"}.get(kind, kind), hist=hid, replay_history=ops[:k + 1])
+            if kind == "torus_path":
+                d["a"], d["b"] = list(to2d(op["s"])), list(to2d(op["d"]))
+            out.append((d, r))
+    for i in sorted(gens):
+        flush(i, len(ops) - 1)
+    return out
+
+
+def expand(cases, outs, state):
+    cs, os_ = [], []
+    for c, o in zip(cases, outs):
+        if c["fn"] == "history":
+            state["hist"] = state.get("hist", 0) + 1
+            for d, r in expand_history(c, o, state["hist"]):
+                cs.append(d)
+                os_.append(r)
+        else:
+            cs.append(c)
+            os_.append(o)
+    return cs, os_
+
+
 def gen_phase1(chk):
     rng = chk.rng
     quick = chk.tier == "quick"
-    cases = []
+    cases = gen_histories(chk)          # first: they must be the first to touch each hexagon ring
     # regression: the outcome on which the code as found (float key) returned a non-shortest vector
     cases.append(dict(fn="torus_path", s=[0, 0, 0], d=[2, 0, 0], w=3, h=3, ks=[0, TWO53 - 1, 2 ** 52, 2 ** 52], t=0,
                       a=[0, 0], b=[2, 0], regression="float-key"))
@@ -337,7 +488,8 @@ def gen_phase2(chk, cases, outs):
     rng = chk.rng
     quick = chk.tier == "quick"
     more = []
-    cand = [(c, o) for c, o in zip(cases, outs) if c["fn"] == "torus_path" and o[0] == "ok" and not c.get("malformed")]
+    cand = [(c, o) for c, o in zip(cases, outs) if c["fn"] == "torus_path" and o[0] == "ok" and not c.get("malformed")
+            and "hist" not in c]
     for c, o in cand:
         if not quick and o[1]["requests"] and c["w"] <= 13 and c["h"] <= 13:
             lo, hi, r = o[1]["requests"][0]
@@ -397,6 +549,8 @@ def coq_expr(c, o):
                 "map links_from_vector %s)" % vs)
     if fn == "hex":
         return "concentric_hexagons %s %s" % (zlit(c["radius"]), v2(c["start"]))
+    if fn == "hexprefix":
+        return "firstn %d (concentric_hexagons %s %s)" % (c["n"], zlit(c["radius"]), v2(c["start"]))
     if fn == "to_xyz":
         return "to_xyz %s" % v2(c["xy"])
     if fn == "minimise":
@@ -428,7 +582,7 @@ def canon_model(c, v):
     if fn == "links":
         mem, fv = v
         return ["ok", [[l, o, None if t is None else list(t[1])] for l, o, t in mem], [unopt(x) for x in fv]]
-    if fn == "hex":
+    if fn in ("hex", "hexprefix"):
         return ["ok", [list(p) for p in v]]
     raise ValueError(fn)
 
@@ -461,6 +615,8 @@ def nontrivial(c, o):
         return hops(c["v"]) >= 2
     if fn == "hex":
         return c["radius"] >= 1
+    if fn == "hexprefix":
+        return c["n"] >= 2
     if fn == "minimise":
         return len(set(c["v"])) > 1
     return True
@@ -484,6 +640,11 @@ def process(chk, D, state, cases, outs):
     """oracle on every implementation output of the batch, then model against implementation"""
     keep = [i for i, o in enumerate(outs) if o[0] != "skipped"]
     cases, outs = [cases[i] for i in keep], [outs[i] for i in keep]
+    for c in cases:
+        if c["fn"] == "history":
+            chk.count("history:" + c.get("kind", "replay"))
+            chk.count("history:calls", len(c["ops"]))
+    cases, outs = expand(cases, outs, state)
     nrep = state["nrep"]
     for c, o in zip(cases, outs):
         fn = c["fn"]
@@ -495,7 +656,13 @@ def process(chk, D, state, cases, outs):
             chk.count("torus:thin(w or h <= 2)" if min(c["w"], c["h"]) <= 2 else "torus:w,h >= 3")
             if fn == "torus_path" and o[0] == "ok":
                 chk.count("torus_path:spiral-draw" if o[1]["requests"] else "torus_path:no-spiral-draw")
-        chk.note_case({k: c[k] for k in c if k not in ("a", "b", "nomodel")}, nontrivial(c, o))
+        if "hist" in c:
+            chk.count("in-history:" + fn)
+            if c.get("form", "tuple") not in ("tuple", "list"):
+                chk.count("in-history:one-shot-iterable-argument")
+            if c.get("then"):
+                chk.count("in-history:result-then-mutated-by-caller")
+        chk.note_case({k: c[k] for k in c if k not in ("a", "b", "nomodel", "replay_history")}, nontrivial(c, o))
         why = oracle(c, o, D)
         if c.get("regression") == "float-key" and why:
             why = ("torus-path-float-key-rounds-up", why[1])
@@ -503,12 +670,12 @@ def process(chk, D, state, cases, outs):
             nrep[why[0]] = nrep.get(why[0], 0) + 1
             if nrep[why[0]] <= 3:
                 chk.fail_input(why[0], why[1], dict(case=c, observed=o))
-    for fn in ("torus_path", "ldf", "hex"):
+    for fn in ("torus_path", "ldf", "hex", "hexprefix"):
         if fn in state["sampled"]:
             continue
         for c, o in zip(cases, outs):
             if c["fn"] == fn and nontrivial(c, o):
-                chk.sample(dict(case=c, implementation=o if fn != "hex" else ["ok", "%d chips" % len(o[1])]))
+                chk.sample(dict(case={k: v for k, v in c.items() if k != "replay_history"}, implementation=o if not fn.startswith("hex") else ["ok", "%d chips" % len(o[1])]))
                 state["sampled"].add(fn)
                 break
     if not chk.model_ok or state["model_error"]:
@@ -520,7 +687,7 @@ def process(chk, D, state, cases, outs):
                 by_fn.setdefault(c["fn"], []).append(i)
         exprs, groups = [], []
         for fn, idxs in sorted(by_fn.items()):
-            step = {"ldf": 25, "hex": 2, "links": 1, "torus_path": 60}.get(fn, 120)
+            step = {"ldf": 25, "hex": 2, "hexprefix": 2, "links": 1, "torus_path": 60}.get(fn, 120)
             for j in range(0, len(idxs), step):
                 g = idxs[j:j + step]
                 exprs.append(vlist(coq_expr(cases[i], outs[i]) for i in g))
@@ -566,6 +733,7 @@ def run(chk, args):
         rp = json.load(open(args.replay))
         cases = [f["replay"]["case"] for f in rp.get("failures", []) if "case" in f.get("replay", {})]
         cases += [b["replay"]["case"] for b in rp.get("no_longer_checks", []) if "case" in b.get("replay", {})]
+        cases = [dict(fn="history", ops=c["replay_history"]) if "replay_history" in c else c for c in cases]
         process(chk, D, state, cases, run_impl(chk, cases))
     else:
         batches = gen_phase1(chk)
@@ -599,7 +767,10 @@ def run(chk, args):
         "random mesh pairs with coordinates in [-90, 90], random and router-produced vectors walked "
         "longest-dimension-first with width/height None or 1..9, one exhaustive link-table case "
         "(from_vector on [-5,5]^2, wrap-around collapse on every torus 3..6 x 3..6), concentric_hexagons for every "
-        "radius 0..%d; malformed stream: zero width/height.  BFS on the explicit graph decides every output.  "
+        "radius 0..%d; histories of calls in one interpreter (hexagon generators abandoned / suspended inside a "
+        "ring nobody walked before, interleaved generators, arguments as tuple / list / generator / map / "
+        "iterator, returned lists modified in place by the caller before the next call), every call judged "
+        "on its own; malformed stream: zero width/height.  BFS on the explicit graph decides every output.  "
         "non-trivial = source and destination chips differ (paths), >= 2 hops (walks), radius >= 1 (hexagons); "
         "distinct by hash of the whole input including the scripted draws"
         % (6 if chk.tier == "quick" else 13, 10 if chk.tier == "quick" else 60, 8 if chk.tier == "quick" else 25))
